@@ -307,7 +307,7 @@ func writeRecordConverters(w *formatting.IndentedWriter, t *dsl.RecordDefinition
 			w.Indented(func() {
 				fmt.Fprintf(w, "it->get_to(value.%s);\n", common.FieldIdentifierName(field.Name))
 			})
-			if underlying, ok := dsl.GetUnderlyingType(field.Type).(*dsl.GeneralizedType); ok && underlying.Dimensionality == nil && underlying.Cases.HasNullOption() {
+			if fieldMayBeNull(field.Type) {
 				// null fields are omitted by to_json: an absent field means null, not "keep what the destination held"
 				w.WriteStringln("} else {")
 				w.Indented(func() {
@@ -318,6 +318,19 @@ func writeRecordConverters(w *formatting.IndentedWriter, t *dsl.RecordDefinition
 		}
 	})
 	w.WriteStringln("}\n")
+}
+
+// fieldMayBeNull tells whether to_json can omit a field of this type: the type has a null case,
+// or it is a generic type parameter, which may be instantiated with a type that has one.
+func fieldMayBeNull(t dsl.Type) bool {
+	switch underlying := dsl.GetUnderlyingType(t).(type) {
+	case *dsl.GeneralizedType:
+		return underlying.Dimensionality == nil && underlying.Cases.HasNullOption()
+	case *dsl.SimpleType:
+		_, isParameter := underlying.ResolvedDefinition.(*dsl.GenericTypeParameter)
+		return isParameter
+	}
+	return false
 }
 
 func writeEnumConverters(w *formatting.IndentedWriter, t *dsl.EnumDefinition) {
